@@ -255,6 +255,17 @@ def merge_cases(run: Run):
             for _ in range(3000):
                 combo = [rng.randrange(len(alpha)) for _ in range(rng.randint(4, 5))]
                 cases.append({"c": {"nq": nq, "nb": 1, "stmts": [W.w_stmt(alpha[i]()) for i in combo]}, "band": False, "ex": False})
+    # every ordered pair of parameter-free default gates on one qubit, fused at the end of the circuit (renaming to default gates)
+    import opensquirrel.default_gates as _dg0
+    for a_ in G.NOPARAM:
+        for b_ in G.NOPARAM:
+            cases.append({"c": {"nq": 2, "nb": 1, "stmts": [W.w_stmt(getattr(_dg0, a_)(1)), W.w_stmt(getattr(_dg0, b_)(1))]}, "band": False, "ex": True})
+    for a_ in G.NOPARAM:
+        for th in (math.pi / 2, -math.pi / 2, math.pi / 4, -math.pi / 4, math.pi):
+            from opensquirrel.ir import Float as _F0
+            for r_ in ("Rx", "Ry", "Rz"):
+                if rng.random() < run.n(0.25, 1.0):
+                    cases.append({"c": {"nq": 1, "nb": 1, "stmts": [W.w_stmt(getattr(_dg0, a_)(0)), W.w_stmt(getattr(_dg0, r_)(0, _F0(th)))]}, "band": False, "ex": False})
     # lone named rotations whose operation coincides with a parameter-free default gate (must keep name and parameter)
     import opensquirrel.default_gates as _dg
     from opensquirrel.ir import Float as _F
